@@ -29,6 +29,9 @@ let tok_kv (k, v) = match k, v with
   | KSetID, VNum v -> "setID:" ^ x v
   | KAuth s, _ -> "auth:" ^ x s
   | KChange s, _ -> "change:" ^ x s
+  | KJst b, _ -> "jst:" ^ x b
+  | KPv (r, s), _ -> Printf.sprintf "pv:%s:%s" (x r) (x s)
+  | KPc (r, s), _ -> Printf.sprintf "pc:%s:%s" (x r) (x s)
   | _ -> "?"
 
 let tok_unit = function
@@ -62,7 +65,7 @@ let check inp obs =
     and nforced = List.length (List.filter (function Imp (_, DForced _) -> true | _ -> false) pops)
     and nfin = List.length (List.filter (function Fin _ -> true | _ -> false) pops) in
     let refin = (let st = ref sim0 and hit = ref false in
-                 List.iter (fun o -> (match o with Fin (b, _) when b = !st.s_fin && valid !st o -> hit := true | _ -> ());
+                 List.iter (fun o -> (match o with Fin (b, _) when b = !st.s_fin && Model.valid !st o -> hit := true | _ -> ());
                              st := snd (step set_change_units !st o)) pops; !hit) in
     let base_tags = (if refin then "refinalise-head," else "") ^ Printf.sprintf "scenario,crash-points-%s,fin-%d%s%s"
         (let n = List.length mver in if n < 10 then "1..9" else if n < 30 then "10..29" else if n < 60 then "30..59" else "60+")
